@@ -13,7 +13,7 @@
 From Coq Require Import ZArith List Bool.
 From Low Require Import Lib.MachInt Lib.Bits Lib.BitSeq Lib.Bytes Lib.Pack_bw Model.Bitword Spec.BitwordSpec
   Lib.Lex Spec.BitwordSpecDirect Spec.BitwordSpecWiden
-  Proofs.BitwordProofs Proofs.BitwordToStr Proofs.BitwordFirstDiff Proofs.BitwordDirect Proofs.BitwordWiden Proofs.BitwordLcp.
+  Proofs.BitwordProofs Proofs.BitwordToStr Proofs.BitwordFirstDiff Proofs.BitwordDirect Proofs.BitwordWiden Proofs.BitwordLcp Proofs.BitwordRoundTrip.
 Import ListNotations.
 Open Scope Z_scope.
 
@@ -195,6 +195,19 @@ Theorem C08_FirstDiff_lcp : forall n a b, widthP n ->
 Proof. exact FirstDiff_lcp. Qed.
 Print Assumptions C08_FirstDiff_lcp.
 
+(** the round trip in the other direction: FromStr(ToStr(ws)) = ws followed by the zero words that
+    complete the last byte ([spec_FromStr_ToStr]); = ws for a whole number of bytes *)
+Theorem C08_FromStr_ToStr : forall n ws, widthP n -> words_in n ws ->
+  exists s, ToStr (newBW (Z.of_nat n)) ws = Some s /\
+            FromStr (newBW (Z.of_nat n)) s = spec_FromStr_ToStr n ws.
+Proof. exact FromStr_ToStr. Qed.
+Print Assumptions C08_FromStr_ToStr.
+
+Theorem C08_FromStr_ToStr_whole : forall n ws, widthP n -> words_in n ws -> (length ws mod (8 / n) = 0)%nat ->
+  exists s, ToStr (newBW (Z.of_nat n)) ws = Some s /\ FromStr (newBW (Z.of_nat n)) s = ws.
+Proof. exact FromStr_ToStr_whole. Qed.
+Print Assumptions C08_FromStr_ToStr_whole.
+
 (** * non-vacuity *)
 
 (** the four widths satisfy the hypothesis; a string with high bits set *)
@@ -268,6 +281,8 @@ Example C08_widen_nonvacuous :
   FirstDiff (newBW 4) [0xa5] [] 0 (-1) = Some 0 /\
   lcp Z.eqb (FromStr (newBW 4) [0xa5; 0xff]) (FromStr (newBW 4) [0xa5; 0xf7; 0x00]) = [0xa; 5; 0xf] /\
   FirstDiff (newBW 4) [0xa5; 0xff] [0xa5; 0xf7; 0x00] 0 (-1) = Some 3 /\
+  FromStr (newBW 2) [0xc4] = [3; 0; 1; 0] /\ spec_FromStr_ToStr 2 [3; 0; 1] = [3; 0; 1; 0] /\
+  spec_FromStr_ToStr 2 [3; 0; 1; 2] = [3; 0; 1; 2] /\
   ToStr (newBW 4) [0x1f; 0x23; 0xff] = Some [0x13; 0xf0] /\
   ToStr (newBW 8) [0x1f; 0x23] = Some [0x1f; 0x23] /\
   spec_ToStr_any 4 [0x1f; 0x23; 0xff] = [0x13; 0xf0].
